@@ -305,8 +305,11 @@ var AllKinds = []string{"child", "child", "nth", "wild", "descent", "union", "sl
 // descents are never adjacent.
 func (g *Gen) Path(maxLen int, kinds []string, allowTrailingDescent bool) jpref.Path {
 	var p jpref.Path
-	if g.R.Intn(2) == 0 {
+	switch g.R.Intn(6) {
+	case 0, 1, 2:
 		p = append(p, Root())
+	case 3:
+		p = append(p, At()) // a path rooted at @ applied to data: @ is the data
 	}
 	n := 1 + g.R.Intn(maxLen)
 	for i := 0; i < n; i++ {
@@ -317,6 +320,9 @@ func (g *Gen) Path(maxLen int, kinds []string, allowTrailingDescent bool) jpref.
 			} else if i == n-1 && !allowTrailingDescent {
 				f = Wild()
 			}
+		}
+		if (f.Kind == "root" || f.Kind == "at") && len(p) > 0 && (p[len(p)-1].Kind == "root" || p[len(p)-1].Kind == "at") {
+			f = Wild() // "$$", "@@", "$@" are not paths anybody writes (and do not print to parseable text)
 		}
 		p = append(p, f)
 	}
